@@ -166,13 +166,70 @@ func runC08(tier string) int {
 	if completed < maxEntries {
 		r.NotExhaustive(fmt.Sprintf("completed entry lists of length <= %d of planned <= %d", completed, maxEntries))
 	}
+	// the size dimension: headers with K entries and tables with K entries, for every K up to a bound far above the exhaustive one
+	maxK := 40
+	if tier == "thorough" {
+		maxK = 120
+	}
+	type longJob struct {
+		k, pattern int
+		opt        bool
+	}
+	var longJobs []longJob
+	for k := 3; k <= maxK; k++ {
+		for pattern := 0; pattern < 6; pattern++ {
+			longJobs = append(longJobs, longJob{k, pattern, true}, longJob{k, pattern, false})
+		}
+	}
+	longDone := r.Parallel(uint64(len(longJobs)), func(w int, i uint64) {
+		j := longJobs[i]
+		tabEntry := func(n int) c08TabEntry {
+			switch j.pattern % 3 {
+			case 0:
+				return c08TabEntry{false, 0, n % 2}
+			case 1:
+				return c08TabEntry{true, []int{1, 2, 4, 8}[n%4], n % 2}
+			}
+			if n%2 == 0 {
+				return c08TabEntry{false, 0, 0}
+			}
+			return c08TabEntry{true, []int{0, 1, 4}[n%3], 1}
+		}
+		var entries []c08Entry
+		if j.pattern < 3 {
+			// one long table between two other entries
+			var tab []c08TabEntry
+			for n := 0; n < j.k; n++ {
+				tab = append(tab, tabEntry(n))
+			}
+			entries = []c08Entry{{kind: 1, body: 1}, {kind: 2, table: tab}, {kind: 0}}
+		} else {
+			// a long header: K entries rotating over plain, inline and short tables
+			for n := 0; n < j.k; n++ {
+				switch n % 3 {
+				case 0:
+					entries = append(entries, c08Entry{kind: 0})
+				case 1:
+					entries = append(entries, c08Entry{kind: 1, body: n % c08Bodies})
+				default:
+					entries = append(entries, c08Entry{kind: 2, table: []c08TabEntry{tabEntry(n), tabEntry(n + 1)}})
+				}
+			}
+		}
+		r.Add("long_statements", 1)
+		c08Eval(r, entries, "", j.opt, sw)
+	})
+	if !longDone {
+		r.NotExhaustive("long mapscripts statements not completed")
+	}
+	r.Set("long_statements_max_entries", maxK)
 	r.Set("max_entries_completed", completed)
 	r.Set("entry_options", nOpts)
 	r.Set("max_table_length", maxTab)
 	r.Assume("an inline body must be emitted exactly like 'script(local) <name> { body }' (differential; C01 decides the behaviour of script statements)",
 		"inline names are <map>_<TYPE> and <map>_<TYPE>_<index>; texts inside bodies are distinct per entry so that no label is shared across entries")
 	return r.Finish(r.Get("evaluations"), r.Get("nontrivial"),
-		"every mapscripts statement with <= N entries over {plain, inline with 9 body kinds incl. arguments that contain '%', table with <= T entries over plain / inline entries with simple and multi-token var/value (the multi-token ones mention constants)} x scope {none, global, local} x optimize on/off, incl. the empty statement and empty tables; header, table and inline-script blocks are compared with the generator's expectation and with the standalone compilation of the same body; non-trivial = the statement has a table and an inline entry")
+		"every mapscripts statement with <= N entries over {plain, inline with 9 body kinds incl. arguments that contain '%', table with <= T entries over plain / inline entries with simple and multi-token var/value (the multi-token ones mention constants)} x scope {none, global, local} x optimize on/off, incl. the empty statement and empty tables; plus tables with K entries and headers with K entries for every K up to the bound in the coverage; header, table and inline-script blocks are compared with the generator's expectation and with the standalone compilation of the same body; non-trivial = the statement has a table and an inline entry")
 }
 
 func c08Eval(r *harness.Run, entries []c08Entry, scope string, opt bool, sw map[string]string) {
